@@ -13,6 +13,7 @@ import (
 	"testing"
 	"time"
 
+	"verifharness/deploypath"
 	"verifharness/vh"
 
 	"github.com/projecteru2/core/strategy"
@@ -590,4 +591,8 @@ func TestStrategy(t *testing.T) {
 		"non-trivial = valid-stream case with >= 2 candidates not rejected by the first guard (strategy name, count, total<need). " +
 		"Strategies: " + strings.Join(strategies, ","))
 	glueStream(t, prop)
+	if prop == "C01" {
+		// the composed deploy path on a real Calcium (coq/Calcium/DeployPath.v)
+		deploypath.Stream(t, prop, 40, 600)
+	}
 }
